@@ -73,10 +73,35 @@ _GEN = re.compile(r"::<[^<>]*(?:<[^<>]*(?:<[^<>]*>[^<>]*)*>[^<>]*)*>")
 _LT = re.compile(r"'[a-zA-Z_][a-zA-Z0-9_]*\s*,?\s*")
 
 
+def _protect_impl(s):
+    """`::<impl Tr for Ty>` is a path segment, not a generic argument list: rewrite to `::{impl Tr for Ty}`"""
+    out = []
+    i = 0
+    while True:
+        j = s.find("<impl ", i)
+        if j < 0:
+            out.append(s[i:])
+            break
+        out.append(s[i:j])
+        depth = 0
+        k = j
+        while k < len(s):
+            if s[k] == "<":
+                depth += 1
+            elif s[k] == ">" and s[k - 1] != "-":
+                depth -= 1
+                if depth == 0:
+                    break
+            k += 1
+        out.append("{" + s[j + 1:k] + "}")
+        i = k + 1
+    return "".join(out)
+
+
 def norm(path):
     """strip `::<...>` generic argument lists and lifetimes: names are matched modulo generics"""
     prev = None
-    s = path
+    s = _protect_impl(path)
     while prev != s:
         prev = s
         s = _GEN.sub("", s)
@@ -598,3 +623,39 @@ def tail(n):
     while n.get("k") == "Block" and n.get("expr") is not None:
         n = strip(n["expr"])
     return n
+
+
+def walk_arms(n, stack=()):
+    """pre-order walk yielding (node, arm_stack); arm_stack = tuple of (match scrutinee type, [variant paths]
+    or ['_']) for every enclosing match arm, outermost first. Also records if/else as ('if', cond-node, bool)."""
+    yield n, stack
+    k = n.get("k")
+    if k == "Match":
+        for c in children(n["scrut"]) if False else [n["scrut"]]:
+            yield from walk_arms(c, stack)
+        for a in n["arms"]:
+            vs = pat_variants(a["pat"]) or ["_"]
+            st = stack + ((n["scrut"].get("ty", ""), tuple(vs)),)
+            if "guard" in a:
+                yield from walk_arms(a["guard"], st)
+            yield from walk_arms(a["body"], st)
+        return
+    if k == "If":
+        yield from walk_arms(n["cond"], stack)
+        yield from walk_arms(n["then"], stack + (("if", id(n), True),))
+        if "else" in n:
+            yield from walk_arms(n["else"], stack + (("if", id(n), False),))
+        return
+    for c in children(n):
+        yield from walk_arms(c, stack)
+
+
+def arm_variants(stack, enum_suffix):
+    """last-segment names of the variants of the innermost enclosing arm whose patterns belong to `enum_suffix`"""
+    for ent in reversed(stack):
+        if ent[0] == "if":
+            continue
+        ty, vs = ent
+        if any(("::" + enum_suffix + "::") in ("::" + v) for v in vs if v != "_"):
+            return [last_seg(v) for v in vs]
+    return None
